@@ -853,7 +853,15 @@ func baseRecord(id int, fx string, w *World, r *Render, e *env) BaseRec {
 		}
 	}
 	rs := e.runWorldS(w, true)
-	b.Classes = checkClasses(rs.Structs, classPool)
+	local := map[string]ClassSample{}
+	b.Classes = checkClasses(rs.Structs, local)
+	classPoolMu.Lock()
+	for k, v := range local {
+		if _, dup := classPool[k]; !dup {
+			classPool[k] = v
+		}
+	}
+	classPoolMu.Unlock()
 	if r.Panic != "" {
 		b.Errors = append(b.Errors, "panic: "+r.Panic)
 	}
@@ -958,7 +966,7 @@ func runJob(e *env, fi int, fx Fixture, plus bool, rng *vh.Rng, thorough bool, b
 					switch c.Obs.Go {
 					case 2:
 						st.Suspect++
-						if thorough || perFieldSuspects[l.Field] < 6 {
+						if perFieldSuspects[l.Field] < suspectCap(thorough) {
 							perFieldSuspects[l.Field]++
 							res.suspects = append(res.suspects, c)
 						}
@@ -1104,7 +1112,7 @@ func main() {
 			errs = append(errs, r.errs...)
 			for _, cs := range r.suspects {
 				hk := cs.Field + "|" + fmt.Sprint(cs.Obs.Files) + "|" + fmt.Sprint(cs.Obs.HFiles)
-				if dedupe[hk] || (!thorough && perField[cs.Field] >= 6) {
+				if dedupe[hk] || perField[cs.Field] >= suspectCap(thorough) {
 					continue
 				}
 				dedupe[hk] = true
@@ -1120,9 +1128,9 @@ func main() {
 				normal = append(normal, cs)
 			}
 		}
+		pr := rng.Fork(uint64(7000 + j.fi*2 + b2i(j.plus)))
 		if !thorough && len(normal) > a.N {
-			// a seed-dependent sample, but at least one case per field
-			pr := rng.Fork(uint64(7000 + j.fi*2 + b2i(j.plus)))
+			// quick: a seed-dependent sample of a.N per (fixture, edition), at least one case per field
 			byField := map[string]bool{}
 			var keep, rest []Case
 			for _, c := range normal {
@@ -1140,25 +1148,74 @@ func main() {
 				rest = rest[:len(rest)-1]
 			}
 			normal = keep
+		} else if thorough {
+			// thorough: every argument-count change, and a seed-dependent sample of a.N per FIELD of the cases the
+			// pre-screen sees no event difference in (the rest is covered by the pre-screen only; its agreement with
+			// Rocq is checked on everything that is evaluated)
+			perF := map[string][]Case{}
+			var keep []Case
+			var order []string
+			for _, c := range normal {
+				if c.Obs.Go == 1 {
+					keep = append(keep, c)
+					continue
+				}
+				if _, ok := perF[c.Field]; !ok {
+					order = append(order, c.Field)
+				}
+				perF[c.Field] = append(perF[c.Field], c)
+			}
+			for _, f := range order {
+				l := perF[f]
+				for n := 0; n < a.N && len(l) > 0; n++ {
+					i := pr.Intn(len(l))
+					keep = append(keep, l[i])
+					l[i] = l[len(l)-1]
+					l = l[:len(l)-1]
+				}
+			}
+			normal = keep
 		}
 		first.base.BaseID = baseID
 		out.Emit(first.base)
-		for _, list := range [][]Case{errs, suspects, normal} {
-			for _, c := range list {
-				if c.Obs.Accepted && c.Obs.Attached && c.Obs.Go != 2 && c.Obs.Panic == "" {
-					// the tested glue on this accepted value: strings of the template data in their classes
-					if w2 := mutate(fixtures[j.fi].Build(j.plus), c.Obj, c.Path, stringOf(c.Value)); w2 != nil {
-						rs := envs[j.plus].runWorldS(w2, true)
-						c.Obs.Classes = checkClasses(rs.Structs, classPool)
-					}
-				}
-				c.ID, c.BaseID = id, baseID
-				id++
-				if st := sum.Fields[c.Field]; st != nil {
-					st.Emitted++
-				}
-				out.Emit(c)
+		all := append(append(append([]Case(nil), errs...), suspects...), normal...)
+		// the tested glue on every emitted accepted value whose structure is intact: strings of the template
+		// data in their classes (in parallel; the sample pool is shared)
+		var gw sync.WaitGroup
+		gsem := make(chan struct{}, runtime.NumCPU())
+		for ci := range all {
+			c := &all[ci]
+			if !(c.Obs.Accepted && c.Obs.Attached && c.Obs.Go != 2 && c.Obs.Panic == "") {
+				continue
 			}
+			gw.Add(1)
+			go func(c *Case) {
+				defer gw.Done()
+				gsem <- struct{}{}
+				defer func() { <-gsem }()
+				defer func() { _ = recover() }()
+				if w2 := mutate(fixtures[j.fi].Build(j.plus), c.Obj, c.Path, stringOf(c.Value)); w2 != nil {
+					rs := envs[j.plus].runWorldS(w2, true)
+					local := map[string]ClassSample{}
+					c.Obs.Classes = checkClasses(rs.Structs, local)
+					classPoolMu.Lock()
+					for k, v := range local {
+						if _, dup := classPool[k]; !dup {
+							classPool[k] = v
+						}
+					}
+					classPoolMu.Unlock()
+				}
+			}(c)
+		}
+		gw.Wait()
+		for _, c := range all {
+			c.ID, c.BaseID = id, baseID
+			id++
+			if st := sum.Fields[c.Field]; st != nil {
+				st.Emitted++
+			}
+			out.Emit(c)
 		}
 		out.Emit(sum)
 		baseID++
@@ -1211,6 +1268,14 @@ func normField(f string) string {
 	return f
 }
 
+// suspectCap: how many pre-screen suspects per field and (fixture, edition) are sent to Rocq
+func suspectCap(thorough bool) int {
+	if thorough {
+		return 40
+	}
+	return 6
+}
+
 func stringOf(xs []int) string {
 	b := make([]byte, len(xs))
 	for i, x := range xs {
@@ -1221,6 +1286,7 @@ func stringOf(xs []int) string {
 
 // classPool collects (class, value, verdict of tab.InClass) for the Rocq cross-check (filled sequentially)
 var classPool = map[string]ClassSample{}
+var classPoolMu sync.Mutex
 
 func b2i(b bool) int {
 	if b {
